@@ -1,6 +1,6 @@
 (* The methods of property C14 as data: dispatch of a call (receiver first) to the impl-model and to the
    specification, and the table of declared signatures (compiler/src/ast/type.rs get_property_type). *)
-From MS Require Import Base.Str Builtins.Val Builtins.Utf8 Builtins.Numeral Builtins.StrImpl Builtins.StrSpec
+From MS Require Import Base.Str Builtins.Val Builtins.Utf8 Builtins.Numeral Builtins.StrImpl Builtins.StrSpec Builtins.ParseFloat
   Builtins.NumBuiltins.
 Open Scope Z_scope.
 
